@@ -2,10 +2,16 @@
    Property theorems only.  The well-formedness conditions are a boolean (Compact.wf_versionb) that the
    correspondence check evaluates inside Coq on the versions the implementation installs; the theorems say
    what that boolean guarantees and that the tables a compaction writes are well-formed by construction.
-   PARTIAL: that the outputs fit between the surviving tables of the output level (wf_step for the code's own
-   picker/expand/finish) is not proved; it is validated on every observed version by wf_versionb. *)
+   Second part (C06_inputs_closed ... C06_range_compaction_seed): the step theorems for the model Lsm/Pick.v of
+   goleveldb's own construction — getOverlaps (both variants), newCompaction/expand, trivial(), pickMemdbLevel,
+   versionStaging.finish — over every comparer, every well-formed version, every level and every seed.  The invariant
+   is WfLsm.wf_lsm; its boolean form Pick.wf_lsmb = wf_versionb && wf_extrab is what the correspondence check evaluates
+   on the versions the running code installs.
+   NOT covered by a step theorem: records committed with finish(trivial=false) (transaction commit, recovery), which the
+   model has but for which only the correspondence check (KFinish) and the oracle speak. *)
 From GL Require Import Base.Order Codec.IKey Codec.BytesCmp Codec.BytesCmpProofs Lsm.Lsm Lsm.Compact Lsm.LsmProofs
-  Lsm.CompactProofs Lsm.ReorgProofs Lsm.WfProofs Lsm.OutputProofs Gen.ConstsOk.
+  Lsm.CompactProofs Lsm.History Lsm.ReorgProofs Lsm.WfProofs Lsm.OutputProofs Lsm.Pick Lsm.PickBase Lsm.OverlapProofs
+  Lsm.WfLsm Lsm.C06Steps Gen.ConstsOk.
 
 (* The boolean check implies the invariant under which newest-first lookup is correct: every table sorted,
    level 0 without duplicate (key, seq), deeper levels ordered with pairwise disjoint user-key ranges, and for
@@ -52,3 +58,180 @@ Example C06_nonvacuous :
     [ []; [ {| t_num := 5; t_entries := [{| e_uk := [3]; e_seq := 5; e_kind := 1; e_val := [] |}] |};
             {| t_num := 6; t_entries := [{| e_uk := [3]; e_seq := 4; e_kind := 1; e_val := [] |}] |} ] ]%N = false.
 Proof. split; vm_compute; reflexivity. Qed.
+
+(* ------------------------------------------------------------------------------------------------------------------
+   The step theorems for goleveldb's own compaction construction (model Lsm/Pick.v).
+   ------------------------------------------------------------------------------------------------------------------ *)
+
+(* The boolean evaluated on observed versions implies the step invariant, and the step invariant implies the invariant
+   of the read path (the Prop C06_wf_versionb_sound concludes). *)
+Theorem C06_wf_lsmb_sound : forall c, comparer_ok c -> forall p v, wf_lsmb c p v = true -> wf_lsm c p v.
+Proof. exact wf_lsmb_sound. Qed.
+Print Assumptions C06_wf_lsmb_sound.
+
+Theorem C06_wf_lsm_wf_state : forall c p v, wf_lsm c p v ->
+  wf_state c p {| st_mem := []; st_frozen := []; st_aux := []; st_levels := v |}.
+Proof. exact wf_lsm_wf_state. Qed.
+Print Assumptions C06_wf_lsm_wf_state.
+
+(* tFiles.getOverlaps on an ordered, disjoint level (the two binary searches) returns exactly the overlapping tables. *)
+Theorem C06_getoverlaps_sorted_exact : forall c, comparer_ok c -> forall p tf,
+  (forall t, In t tf -> tbl_ok c p t) -> bsorted c tf -> forall umin umax t,
+  In t (get_overlaps_sorted c tf umin umax) <-> In t tf /\ t_overlaps c t umin umax = true.
+Proof. exact get_overlaps_sorted_in. Qed.
+Print Assumptions C06_getoverlaps_sorted_exact.
+
+(* tFiles.getOverlaps on level 0 (restart-the-scan loop) terminates within its fuel and returns the tables overlapping a
+   widened range none of which sticks out of that range. *)
+Theorem C06_getoverlaps_level0 : forall c, comparer_ok c -> forall tf umin umax,
+  exists d, get_overlaps c tf umin umax true = POk d /\ l0_result c tf umin umax d.
+Proof. exact get_overlaps_l0_spec. Qed.
+Print Assumptions C06_getoverlaps_level0.
+
+(* The inputs newCompaction/expand choose are closed: they contain the seed; every table of level+1 overlapping the
+   user-key range spanned by any two chosen source tables is an input; for source level 0 so is every level-0 table
+   overlapping such a range.  (No panic, no fuel exhaustion: the result is POk.) *)
+Theorem C06_inputs_closed : forall c, comparer_ok c -> forall p sz v lvl limit seed,
+  wf_lsm c p v -> seed_ok v lvl seed ->
+  exists cm, new_compaction c sz v lvl limit seed = POk cm /\
+    c_level cm = lvl /\ incl seed (c_t0 cm) /\ incl (c_t0 cm) (lv v lvl) /\ incl (c_t1 cm) (lv v (S lvl)) /\
+    (forall s ta tb, In s (lv v (S lvl)) -> In ta (c_t0 cm) -> In tb (c_t0 cm) ->
+       t_overlaps c s (Some (umin_of ta)) (Some (umax_of tb)) = true -> In s (c_t1 cm)) /\
+    (lvl = 0%nat -> forall s ta tb, In s (lv v 0) -> In ta (c_t0 cm) -> In tb (c_t0 cm) ->
+       t_overlaps c s (Some (umin_of ta)) (Some (umax_of tb)) = true -> In s (c_t0 cm)).
+Proof. exact inputs_closed. Qed.
+Print Assumptions C06_inputs_closed.
+
+(* Compaction step: for every level and every seed, installing (finish) the record of the model-built compaction —
+   inputs deleted, outputs = chunks of the kept merged entries cut only between different user keys, under new file
+   numbers — yields a well-formed version again. *)
+Theorem C06_compaction_step : forall c, comparer_ok c -> forall p, kparams_ok p -> forall sz v lvl limit seed,
+  wf_lsm c p v -> seed_ok v lvl seed ->
+  exists cm, new_compaction c sz v lvl limit seed = POk cm /\
+    forall minSeq deeper chunks nums, outputs_of c p cm minSeq deeper chunks ->
+      length nums = length chunks -> fresh_nums v nums ->
+      exists nv, finish c true v (compaction_edit cm (mk_outputs nums chunks)) = POk nv /\ wf_lsm c p nv.
+Proof. exact compaction_step. Qed.
+Print Assumptions C06_compaction_step.
+
+(* ... also when level-0 tables (memdb flushes, transaction commits: newer than everything stored) were installed
+   between picking and committing; v2 is the version at commit time. *)
+Theorem C06_compaction_step_interleaved : forall c, comparer_ok c -> forall p, kparams_ok p -> forall sz v lvl limit seed,
+  wf_lsm c p v -> seed_ok v lvl seed ->
+  exists cm, new_compaction c sz v lvl limit seed = POk cm /\
+    forall v2 minSeq deeper chunks nums, later_version c p v v2 -> outputs_of c p cm minSeq deeper chunks ->
+      length nums = length chunks -> fresh_nums v2 nums ->
+      exists nv, finish c true v2 (compaction_edit cm (mk_outputs nums chunks)) = POk nv /\ wf_lsm c p nv.
+Proof. exact compaction_step_interleaved. Qed.
+Print Assumptions C06_compaction_step_interleaved.
+
+(* Trivial move: whenever compaction.trivial() holds, re-adding the single source table one level down keeps the
+   invariant. *)
+Theorem C06_trivial_move_step : forall c, comparer_ok c -> forall p sz v lvl limit seed,
+  wf_lsm c p v -> seed_ok v lvl seed ->
+  exists cm, new_compaction c sz v lvl limit seed = POk cm /\
+    forall max_gp, trivial sz cm max_gp = true ->
+      exists nv, finish c true v (move_edit cm) = POk nv /\ wf_lsm c p nv.
+Proof. exact trivial_move_step. Qed.
+Print Assumptions C06_trivial_move_step.
+
+(* Flush step: the table placed at pickMemdbLevel keeps the invariant, including the cross-level clause (nothing above
+   it shares a user key with it; everything below is older), for every maxLevel and every grandparent limit. *)
+Theorem C06_flush_step : forall c, comparer_ok c -> forall p, kparams_ok p -> forall sz v gp_limit maxLevel t,
+  wf_lsm c p v -> seqs_fit p v -> flushed_ok c p v t ->
+  exists nv, finish c true v (flush_edit c p sz v gp_limit maxLevel t) = POk nv /\ wf_lsm c p nv.
+Proof. exact flush_step. Qed.
+Print Assumptions C06_flush_step.
+
+(* The entry-level hypotheses of compaction_preserves / certificate_sound are discharged for model-built compactions:
+   reads at every sequence number >= minSeq are preserved (M = the entries of the write buffers). *)
+Theorem C06_model_compaction_admissible : forall c, comparer_ok c -> forall p, kparams_ok p -> forall sz v lvl limit seed,
+  wf_lsm c p v -> seed_ok v lvl seed ->
+  exists cm, new_compaction c sz v lvl limit seed = POk cm /\
+    forall M minSeq, minSeq < keyMaxSeq p -> uniq_in M ->
+      (forall m i x, In m M -> In x (LE (lv v i)) -> e_uk x = e_uk m -> e_seq x < e_seq m) ->
+      let inputs := c_t0 cm ++ c_t1 cm in
+      let others := M ++ LE (filter (fun t => negb (is_input (nums_of inputs) t)) (concat v)) in
+      forall k s, minSeq <= s ->
+        History.res p (newest c k s (compact_entries c p minSeq (skipn (lvl + 2) v) inputs ++ others) None) =
+        History.res p (newest c k s (LE inputs ++ others) None).
+Proof. exact model_compaction_admissible. Qed.
+Print Assumptions C06_model_compaction_admissible.
+
+(* Range compactions: getCompactionRange never panics and its seed (getOverlaps of the range, cut by the source limit)
+   is a seed in the sense of the theorems above. *)
+Theorem C06_range_compaction_seed : forall c, comparer_ok c -> forall p sz v lvl umin umax noLimit src_limit exp_limit,
+  wf_lsm c p v ->
+  exists r, compaction_range c sz v lvl umin umax noLimit src_limit exp_limit = POk r /\
+    forall cm, r = Some cm -> exists seed, seed_ok v lvl seed /\ new_compaction c sz v lvl exp_limit seed = POk cm.
+Proof. exact range_compaction_seed. Qed.
+Print Assumptions C06_range_compaction_seed.
+
+(* Non-vacuity: a three-level version satisfies the invariant; the model picks {9, 8} + {3, 4} from seed 9 (level-0
+   closure), the compaction's single output installs into a well-formed version; a flushed table with fresh keys is
+   placed at level 2 and the result is well-formed; a trivial move of table 5 to level 2 likewise. *)
+Definition ex_e (k : N) (s : N) : entry := {| e_uk := [k]; e_seq := s; e_kind := 1; e_val := [] |}.
+Definition ex_t (n : N) (es : list entry) : table := {| t_num := n; t_entries := es |}.
+Definition ex_v : list (list table) :=
+  [ [ ex_t 9 [ex_e 5 20; ex_e 7 19]; ex_t 8 [ex_e 1 18; ex_e 5 17] ];
+    [ ex_t 3 [ex_e 0 5; ex_e 2 4]; ex_t 4 [ex_e 4 3; ex_e 6 2]; ex_t 5 [ex_e 8 1; ex_e 11 1] ] ]%N.
+
+Example C06_step_nonvacuous :
+  wf_lsmb bytewise kp ex_v = true /\
+  seed_ok ex_v 0 [ex_t 9 [ex_e 5 20; ex_e 7 19]]%N /\
+  (exists cm, new_compaction bytewise (fun _ => 100) ex_v 0 100000 [ex_t 9 [ex_e 5 20; ex_e 7 19]]%N = POk cm /\
+     nums_of (c_t0 cm) = [9; 8]%N /\ nums_of (c_t1 cm) = [3; 4]%N /\
+     let kept := compact_entries bytewise kp 0 (skipn 2 ex_v) (c_t0 cm ++ c_t1 cm) in
+     cuts_ok bytewise [kept] = true /\
+     match finish bytewise true ex_v (compaction_edit cm (mk_outputs [20%N] [kept])) with
+     | POk nv => wf_lsmb bytewise kp nv = true /\ map nums_of nv = [[]; [20; 5]]%N
+     | _ => False
+     end) /\
+  (let t := ex_t 30 [ex_e 20 40; ex_e 21 41]%N in
+   flush_edit bytewise kp (fun _ => 100) ex_v (fun _ => 1000) 2 t = {| ed_del := []; ed_add := [(2%nat, t)] |} /\
+   match finish bytewise true ex_v (flush_edit bytewise kp (fun _ => 100) ex_v (fun _ => 1000) 2 t) with
+   | POk nv => wf_lsmb bytewise kp nv = true /\ map nums_of nv = [[9; 8]; [3; 4; 5]; [30]]%N
+   | _ => False
+   end) /\
+  (exists cm, new_compaction bytewise (fun _ => 100) ex_v 1 100000 [ex_t 5 [ex_e 8 1; ex_e 11 1]]%N = POk cm /\
+     trivial (fun _ => 100) cm 1000 = true /\
+     match finish bytewise true ex_v (move_edit cm) with
+     | POk nv => wf_lsmb bytewise kp nv = true /\ map nums_of nv = [[9; 8]; [3; 4]; [5]]%N
+     | _ => False
+     end).
+Proof.
+  split; [vm_compute; reflexivity|]. split.
+  { split; [discriminate|]. split; [|repeat constructor; intros []].
+    intros t [<-|[]]. left. reflexivity. }
+  split; [eexists; split; [vm_compute; reflexivity|vm_compute; repeat split; reflexivity]|].
+  split; [vm_compute; repeat split; reflexivity|].
+  eexists. split; [vm_compute; reflexivity|vm_compute; repeat split; reflexivity].
+Qed.
+
+(* Why C06_compaction_step_interleaved requires the deeper levels to be unchanged between picking and committing: with
+   memdbMaxLevel > 0 (a DB field marked "For testing"; the production value 0 flushes to level 0 only) a flush that
+   commits while a table compaction is in flight can be placed by pickMemdbLevel INSIDE the user-key hull of that
+   compaction's inputs, in the compaction's output level: pickMemdbLevel looks at the current tables only, the outputs do
+   not exist yet.  Witness: level 1 = {1: keys 1..3, 2: keys 24..26}, a range compaction with both as seed (no level-2
+   input; one output table spanning 1..26), meanwhile a flush of key 13 goes to level 2; committing the compaction then
+   yields level 2 = {30: 13, 20: 1..26} — overlapping tables; a lookup of key 13 at level 2 consults table 20 only. *)
+Definition ex_w : list (list table) :=
+  [ []; [ ex_t 1 [ex_e 1 5; ex_e 3 4]; ex_t 2 [ex_e 24 3; ex_e 26 2] ] ]%N.
+
+Example C06_deep_flush_during_compaction_refuted :
+  wf_lsmb bytewise kp ex_w = true /\
+  exists cm v2,
+    new_compaction bytewise (fun _ => 100) ex_w 1 100000 (nth 1 ex_w []) = POk cm /\
+    finish bytewise true ex_w (flush_edit bytewise kp (fun _ => 100) ex_w (fun _ => 1000) 2 (ex_t 30 [ex_e 13 40])) = POk v2 /\
+    wf_lsmb bytewise kp v2 = true /\ map nums_of v2 = [[]; [1; 2]; [30]]%N /\
+    let kept := compact_entries bytewise kp 0 [] (c_t0 cm ++ c_t1 cm) in
+    cuts_ok bytewise [kept] = true /\
+    match finish bytewise true v2 (compaction_edit cm (mk_outputs [20%N] [kept])) with
+    | POk nv => map nums_of nv = [[]; []; [30; 20]]%N /\ wf_lsmb bytewise kp nv = false
+    | _ => False
+    end.
+Proof.
+  split; [vm_compute; reflexivity|]. eexists. eexists.
+  split; [vm_compute; reflexivity|]. split; [vm_compute; reflexivity|].
+  vm_compute. repeat split; reflexivity.
+Qed.
